@@ -64,6 +64,30 @@ CHECKS = {
         'encoding and reparsed; every sequence of <=2/3 encoding assignments is explored. Exhaustive over the stated tables.',
         'Trusted: mc/model/ref_ladder.py (the ladder as stated in the property), Python codecs; utf-8-sig == utf-8; leading U+FEFF in text-delivered content is not a BOM.',
     ),
+    'C03': (
+        'exploration',
+        'bounded exhaustive enumeration of DOMs (all C02 sheets in every 1-deviation spelling, shipped real sheets) and of free-text content (all strings <=n over an 18-character alphabet x 13 text positions), each serialised, reparsed, reserialised',
+        'DESIGN.md 3/C03',
+        'Every DOM obtained from the C02 menus (single rules and 2-rule sheets, canonical and every 1-site spelling, comment parsing on/off) and from '
+        'the 100 style sheets shipped with the repository is serialised, reparsed and reserialised: the projections (comments at rule/declaration level '
+        'kept) must be equal and the bytes identical; every rule, declaration block, selector, media list and property value text is set on a fresh '
+        'object of its class. Every string of length <=3 (quick) / <=4 (thorough) over 18 content characters is written with minimal CSS escaping in 13 '
+        'positions (string values, url() bare/quoted, @import, @namespace, attribute values, comments, class/id/type/property names written with escapes). '
+        'Failing contents are classified by one-step counterfactuals over character classes. Exhaustive within the bounds.',
+        'Trusted: mc/model/proj.py; losslessness is judged under preferences that filter nothing (keepEmptyRules, no variable resolution), the fixpoint also under the defaults; 0<unit> == 0.',
+    ),
+    'C04': (
+        'exploration',
+        'bounded exhaustive fault enumeration: every balanced garbage token sequence <=d classified as one damaged construct x every injection point of 6 base sheets; every prefix of 5 sheets x 3 spellings',
+        'DESIGN.md 3/C04',
+        'All token sequences of length <=2 over 34 tokens and of length 3 (quick) / up to 4 (thorough) over an 18-token core that an independent classifier '
+        'accepts as exactly one malformed declaration, one rule with a surely invalid selector, or one unknown at-rule prelude are injected at every '
+        'declaration / statement boundary (also inside @media, @page, @font-face) of six base sheets, plus misplaced @import/@charset/@namespace; the '
+        'comment-free projection must equal that of the undamaged sheet (an unknown at-rule node excepted). Every prefix of five sheets in three spellings '
+        'is parsed; every rule and declaration complete before the cut must be present unchanged. Witnesses are reduced to their essential tokens by '
+        'one-step removal. Exhaustive within the bounds.',
+        'Trusted: the classifier in checks/c04.py (conservative: ambiguous damage is excluded), the mark offsets of mc/model/cssast.py for "complete before the cut".',
+    ),
 }
 
 PENDING = {}
